@@ -136,6 +136,15 @@ macro_rules! with_fam {
     };
 }
 
+/// a writer that discards its input without allocating (counts the bytes)
+pub struct NullW(pub usize);
+impl FW for NullW {
+    fn write_str(&mut self, s: &str) -> std::fmt::Result {
+        self.0 += s.len();
+        Ok(())
+    }
+}
+
 pub fn bad() -> std::fmt::Result {
     Err(std::fmt::Error)
 }
@@ -340,8 +349,32 @@ fn main() {
         if line.is_empty() || line.starts_with('#') {
             continue;
         }
-        let g = parse_line(&line);
+        let mut g = parse_line(&line);
         let mut s = String::new();
+        // `alloc <case>`: run the case with a writer that discards (and never allocates), counting every heap
+        // allocation made while the crate's code (and our non-allocating printers) run
+        if !g.is_empty() && !g[0].is_empty() && g[0][0].w() == "alloc" {
+            g[0].remove(0);
+            let r = std::panic::catch_unwind(std::panic::AssertUnwindSafe(|| {
+                let mut nw = NullW(0);
+                alloc_count::start();
+                let r = run_case(&mut nw, &g);
+                let (n, mx) = alloc_count::stop();
+                (r, n, mx, nw.0)
+            }));
+            let line = match r {
+                Ok((Ok(()), n, mx, bytes)) => format!("allocs={} max={} out={}", n, mx, bytes),
+                Ok((Err(_), _, _, _)) => "BADCASE".to_string(),
+                Err(_) => {
+                    alloc_count::stop();
+                    "PANIC".to_string()
+                }
+            };
+            out.write_all(line.as_bytes()).unwrap();
+            out.write_all(b"\n").unwrap();
+            out.flush().unwrap();
+            continue;
+        }
         let r = std::panic::catch_unwind(std::panic::AssertUnwindSafe(|| {
             let mut s2 = String::new();
             let r = run_case(&mut s2, &g);
